@@ -176,18 +176,19 @@ def search(rng, bad_cases):
 
 
 ENABLED = True
-PARTIAL = ["C22_roundtrip_partial", "C22_spec_reader_partial", "C22_full_refuted", "C22_empty_rule_refuted", "C22_comma_value_refuted",
-           "C22_apostrophe_value_refuted"]
+PARTIAL = ["C22_roundtrip_partial", "C22_spec_reader_partial", "C22_partial", "C22_full_refuted", "C22_comma_value_refuted",
+           "C22_comma_value_other_rule_refuted", "C22_apostrophe_value_refuted"]
 LEVEL = "proof"
 LEVEL_TEXT = ("Theorems in coq/theories/Properties/C22.v over models of Display and TryFrom<&str>: for every rule the builder can produce "
-              "(any sequence of builder operations), outside three described classes the string form parses back to the same rule "
+              "(any sequence of builder operations, the rule without keys included since fix 235b9dce), outside two described classes "
+              "(an argument value with a comma / with an apostrophe) the string form parses back to the same rule "
               "(C22_roundtrip_partial) and the specification's reader — a state machine written from the quoting rules of the D-Bus "
               "specification — reads it as exactly the key/value pairs the rule denotes (C22_spec_reader_partial); parsing any accepted "
               "string, formatting and parsing again is stable at full strength, no exception (C22_stable); the parser never panics. "
-              "The full statement is refuted by three machine-checked counterexamples confirmed on the real code (known findings). "
+              "The full statement is still refuted by three machine-checked counterexamples confirmed on the real code (known findings). "
               "Model tied to the code by a two-phase differential run: the model predicts the harness's observation, the specification's "
               "reader is run on the string the implementation printed.")
 LEVEL_NOTE = ("Partial. Trusted: Coq kernel; hand-written models C21/Model.v (rule, builder) and C22/Model.v (Display, TryFrom<&str>); "
-              "C10's validator model; harness hmatch. Known findings: the rule with no keys formats to \"\" which zbus refuses to parse; "
-              "an argument value containing ',' formats to a string zbus cannot parse back (it splits on every comma); an argument value "
+              "C10's validator model; harness hmatch. Fixed by 235b9dce (witness kept, must pass): the rule with no keys formats to \"\" "
+              "which zbus refused to parse. Known findings: an argument value containing ',' formats to a string zbus cannot parse back (it splits on every comma); an argument value "
               "containing an apostrophe formats to a string that is not a valid D-Bus match rule (no escaping in Display).")
